@@ -28,8 +28,14 @@
        if special {
            let mut out = OpenOptions::new().write(true).open(&path)?;     AOpenDev   (error: abort)
            match (self.get_object(&key, &mut out), optional) {            AWriteDev* (into the device: a sink)
-               (Ok(_), _) | (Err(_), true) => continue,                   no rename, no chmod; ANY failure of an
-               (Err(e), false) => return Err(e),                          optional member is skipped here; AFail
+               (Ok(_), _) => continue,                                    no rename, no chmod
+               (Err(e), false) => return Err(e),                          AFail
+               (Err(e), true) => {                                        as in the regular branch: only an ABSENT
+                   if self.zip.file_names().any(|n| n == key) {           optional member is skipped, a stored one
+                       return Err(e);                                     that cannot be read back fails: AFail
+                   }
+                   continue;
+               }
            }
        }
 
@@ -145,7 +151,8 @@ Definition prog_special (o : obj) : list action :=
       AOpenDev (o_path o) :: map AWriteDev (o_chunks o) ++
       match o_dec o with
       | DecOk _ => []
-      | _ => if o_optional o then [] else [AFail]
+      | DecAbsent => if o_optional o then [] else [AFail]
+      | DecCorrupt => [AFail]
       end
   end.
 
@@ -197,7 +204,8 @@ Definition o_hard (o : obj) : option result :=
     | FCreate => Some ROtherError
     | _ => match o_dec o with
            | DecOk _ => None
-           | _ => if o_optional o then None else Some RDecompressionFailure
+           | DecAbsent => if o_optional o then None else Some RDecompressionFailure
+           | DecCorrupt => Some RDecompressionFailure
            end
     end
   else
